@@ -82,6 +82,12 @@ func run(c *h.Ctx, cs Case) {
 			c.P.Class("twin-keys/" + hookClass)
 		}
 	}
+	if !r.R[8] {
+		if how, ok := chain.FlakyAllowed(b, n, cs.Inv.Hook); ok {
+			c.Fail("C03/flaky-loader/unsatisfied-policy-allowed/"+hookClass, "ExecutionAllowed returned nil although statement(s) %v (link, index) are not satisfied by the checked arguments; %s\ncase: %+v", r.FalseStmts, how, cs)
+		}
+		c.P.Class("flaky-loader")
+	}
 	if d.Allowed && !r.R[8] {
 		where := "hook"
 		if len(r.FalseStmts) > 0 {
